@@ -76,8 +76,9 @@ fn fingerprint(r: &Mp4Reader<SR>) -> u64 {
     h
 }
 
-fn alphabet(bytes: &[u8]) -> Vec<Call> {
-    let r = open(bytes).unwrap_or_else(|e| machinery_failure(&format!("C15 file does not open: {}", e)));
+fn alphabet(bytes: &[u8], declared: u64) -> Vec<Call> {
+    let ctl0 = Ctl::new();
+    let r = Mp4Reader::read_header(SR::new(bytes, &ctl0), declared).unwrap_or_else(|e| machinery_failure(&format!("C15 file does not open: {}", e)));
     let ids = sorted_track_ids(&r);
     let maxid = ids.last().copied().unwrap_or(0);
     let mut tids = vec![0u32];
@@ -97,24 +98,24 @@ fn alphabet(bytes: &[u8]) -> Vec<Call> {
     v
 }
 
-fn fresh<'a>(bytes: &'a [u8], ctl: &'a Ctl) -> Mp4Reader<SR<'a>> {
-    Mp4Reader::read_header(SR::new(bytes, ctl), bytes.len() as u64).unwrap()
+fn fresh<'a>(bytes: &'a [u8], declared: u64, ctl: &'a Ctl) -> Mp4Reader<SR<'a>> {
+    Mp4Reader::read_header(SR::new(bytes, ctl), declared).unwrap()
 }
 
-fn reader_graph(name: &str, bytes: &[u8], depth_sweep: usize, l: &mut Local, states_total: &mut u64, trans_total: &mut u64) {
-    let alpha = alphabet(bytes);
+fn reader_graph(name: &str, bytes: &[u8], declared: u64, depth_sweep: usize, l: &mut Local, states_total: &mut u64, trans_total: &mut u64) {
+    let alpha = alphabet(bytes, declared);
     // baseline table: each call once on a fresh reader
     let table: Vec<String> = alpha
         .iter()
         .map(|c| {
             let ctl = Ctl::new();
-            let mut r = fresh(bytes, &ctl);
+            let mut r = fresh(bytes, declared, &ctl);
             apply(&mut r, *c)
         })
         .collect();
     let run_path = |path: &[usize]| -> (Vec<String>, u64) {
         let ctl = Ctl::new();
-        let mut r = fresh(bytes, &ctl);
+        let mut r = fresh(bytes, declared, &ctl);
         let mut out = vec![];
         for &i in path {
             out.push(apply(&mut r, alpha[i]));
@@ -223,7 +224,12 @@ pub fn run(tier: Tier, seed: u64) -> i32 {
     ];
     files.extend(crate::refmp4::kitchen::c15_files(tier));
     for (name, bytes) in files.iter() {
-        reader_graph(name, bytes, if th { 3 } else { 2 }, &mut l, &mut states, &mut trans);
+        reader_graph(name, bytes, bytes.len() as u64, if th { 3 } else { 2 }, &mut l, &mut states, &mut trans);
+    }
+    // streams that end inside the media data (declared length = original): some reads fail, and a failed
+    // call must not influence later ones either
+    for (name, bytes, declared) in crate::refmp4::kitchen::c15_truncated(tier) {
+        reader_graph(&name, &bytes, declared, if th { 2 } else { 1 }, &mut l, &mut states, &mut trans);
     }
 
     // ---- parsing twice: equal structures
